@@ -244,6 +244,8 @@ static void op_rw(const Op& op) {
     for (size_t i = 0; i < niov; i++) {
         uint32_t b = galloc(op.iov[i] + 1);
         if (wr) fill_unique(X->mem + b, op.iov[i]); else memset(X->mem + b, 0x5C, op.iov[i]);
+        // an empty segment may point anywhere up to one past the end of memory: nothing is transferred through it
+        if (op.iov[i] == 0 && op.get("empty_at_end")) b = X->memsize;
         bufs.push_back(b); st32(iovp + (uint32_t)i * 8, b); st32(iovp + (uint32_t)i * 8 + 4, op.iov[i]);
         orig.emplace_back(X->mem + b, X->mem + b + op.iov[i]);
     }
